@@ -154,7 +154,8 @@ func runGen(cfg *Cfg) {
 	single := map[string]string{}
 	for _, req := range reqs {
 		name := req.FileToGenerate[0]
-		if !strings.Contains(name, "/ga/") && !strings.Contains(name, "/gb/") && !strings.Contains(name, "/gc/") && !strings.Contains(name, "/mx/") {
+		if !strings.Contains(name, "/ga/") && !strings.Contains(name, "/gb/") && !strings.Contains(name, "/gc/") && !strings.Contains(name, "/mx/") &&
+			!strings.Contains(name, "/dupa/") && !strings.Contains(name, "/dupb/") && !strings.Contains(name, "/nest/") {
 			continue
 		}
 		for _, f := range req.ProtoFile {
